@@ -83,6 +83,7 @@ func runC03(c *core.Ctx) {
 	c.RuleDoc("R03.4", "directories are deleted only when empty")
 	c.RuleDoc("R03.6", "every prefix test between names in keyvalue, mem, mount and the helpers is on a path-element boundary")
 	c.RuleDoc("R03.7", "a mode update keeps the record's type bits")
+	c.RuleDoc("R03.11", "the generic Sub view never removes its own root")
 	c.RuleDoc("R03.10", "the generic Sub view joins base and name with path.Join, so every entry its root lists can be Stat'ed and opened (= R08.10)")
 	c.RuleDoc("R03.9", "the mount file system does not move an ancestor of a mount point")
 	c.RuleDoc("R03.8", "directory rename: destination record first, children next, source record last")
@@ -103,6 +104,7 @@ func runC03(c *core.Ctx) {
 		r03MountAncestors(c, p)
 		// R03.10: the generic Sub view maps a listed name to base/name with path.Join — "./name" (base ".") cannot be Stat'ed
 		r08SubViewJoins(c, p, "R03.10")
+		r03SubRootKept(c, p)
 	}
 	c.Floor("R03.1", 5)
 	c.Floor("R03.2", 3)
@@ -114,6 +116,7 @@ func runC03(c *core.Ctx) {
 	c.Floor("R03.8", 1)
 	c.Floor("R03.9", 1)
 	c.Floor("R03.10", 2)
+	c.Floor("R03.11", 2)
 }
 
 // pathDirOf: v is path.Dir(x); returns x.
@@ -808,12 +811,28 @@ func r03RenameOrder(c *core.Ctx, p *load.Program, sh *kvShape) {
 // mount path is tested against the name as prefix). Otherwise the mount point keeps resolving (Stat succeeds) but
 // its parent no longer exists and no listing contains it.
 func r03MountAncestors(c *core.Ctx, p *load.Program) {
-	rn := p.Method("mount", "FS", "Rename")
-	if rn == nil {
+	if p.Method("mount", "FS", "Rename") == nil {
 		c.Hard("anchor: mount.(*FS).Rename")
 		return
 	}
-	key := "mount.FS.Rename|refuses-ancestor-of-mount-point"
+	for _, op := range []string{"Rename", "RemoveAll"} {
+		r03MountAncestorOp(c, p, op)
+	}
+}
+
+func r03MountAncestorOp(c *core.Ctx, p *load.Program, op string) {
+	rn := p.Method("mount", "FS", op)
+	key := "mount.FS." + op + "|refuses-ancestor-of-mount-point"
+	if rn == nil {
+		// no method of its own: the package-level helper routes the name with Mount() to the file system holding it,
+		// which knows nothing about the mount table
+		pos := ""
+		if n := p.Named("mount", "FS"); n != nil {
+			pos = p.Pos(n.Obj().Pos())
+		}
+		c.Bad("R03.9", key, pos, "mount.FS has no "+op+" of its own: hackpadfs."+op+"(mfs, \"a\") with a file system mounted at a/m is routed to the file system that holds \"a\", which removes a and a/m — Stat(\"a/m\") still resolves through the mount, but a does not exist and no directory lists the mount point")
+		return
+	}
 	// a Range over the mount table (directly or in a callee that receives a name parameter of Rename) whose
 	// callback tests HasPrefix(<stored mount path>, name + "/") or equality of a stored path with the name
 	checks := false
@@ -844,5 +863,61 @@ func r03MountAncestors(c *core.Ctx, p *load.Program) {
 	}
 	visit(rn, 0)
 	c.Check(checks, "R03.9", key, p.Pos(rn.Pos()), "Rename scans the mount table for mount points below the old name before it moves anything",
-		"mount.FS.Rename never compares the old name with the mount table: Rename(\"p\", \"q\") with a file system mounted at p/a succeeds in the underlying file system — Stat(\"p/a\") still resolves through the mount, but p does not exist and no directory lists the mount point (the helpers' Remove/RemoveAll of an ancestor behave alike)")
+		"mount.FS."+op+" never compares the old name with the mount table: Rename(\"p\", \"q\") with a file system mounted at p/a succeeds in the underlying file system — Stat(\"p/a\") still resolves through the mount, but p does not exist and no directory lists the mount point (the helpers' Remove/RemoveAll of an ancestor behave alike)")
+}
+
+// r03SubRootKept (R03.11): the generic Sub view (the fallback of hackpadfs.Sub, used by mem and keyvalue) has its own
+// Remove and RemoveAll, and each hands the name on (Mount / the helper of the same name) only where the name is known
+// not to be "." — through the MountFS branch of the helpers Remove(view, ".") resolves to the base directory in the
+// parent and removes it: afterwards the root of the view does not exist.
+func r03SubRootKept(c *core.Ctx, p *load.Program) {
+	n := p.Named("", "subFS")
+	if n == nil {
+		c.Hard("anchor: hackpadfs.subFS")
+		return
+	}
+	ms := methodsOf(p, n)
+	for _, op := range []string{"Remove", "RemoveAll"} {
+		key := "hackpadfs.subFS." + op + "|root-of-the-view-is-kept"
+		fn := ms[op]
+		if fn == nil || fn.Blocks == nil {
+			c.Bad("R03.11", key, p.Pos(n.Obj().Pos()), fmt.Sprintf("the generic Sub view has no %s of its own: hackpadfs.%s(view, \".\") takes the MountFS branch, Mount(\".\") resolves to the base directory in the parent file system and that directory is removed — afterwards Stat(view, \".\") fails, the root of the view does not exist", op, op))
+			continue
+		}
+		if len(fn.Params) < 2 {
+			c.Hard("anchor: parameters of subFS.%s", op)
+			continue
+		}
+		name := fn.Params[1]
+		bad := ""
+		calls := 0
+		ssax.Instrs(fn, func(ins ssa.Instruction) {
+			ci, ok := ins.(ssa.CallInstruction)
+			if !ok {
+				return
+			}
+			uses := false
+			for _, a := range ci.Common().Args {
+				if a == ssa.Value(name) {
+					uses = true
+				}
+			}
+			callee := ssax.StaticCallee(ci)
+			if !uses || callee == nil || !p.InModule(callee) || callee.Name() == "stripErrPathPrefix" {
+				return
+			}
+			calls++
+			if !isRootFact(ins, name, false) {
+				bad = p.Pos(ins.Pos())
+			}
+		})
+		switch {
+		case calls == 0:
+			c.Hard("anchor: subFS.%s hands its name to no function of the module", op)
+		case bad != "":
+			c.Bad("R03.11", key, bad, fmt.Sprintf("%s hands the name on at %s without having excluded \".\": the base directory of the view is removed in the parent file system and the root of the view stops existing", fname(fn), bad))
+		default:
+			c.OK("R03.11", key, p.Pos(fn.Pos()), "the name is handed on only where it is known not to be the root of the view")
+		}
+	}
 }
